@@ -22,8 +22,6 @@ package rtx
 
 import (
 	"context"
-	"crypto/sha256"
-	"encoding/hex"
 	"encoding/json"
 	"expvar"
 	"fmt"
@@ -133,6 +131,8 @@ type engine struct {
 	sentN   map[string]int
 	endN    map[string]int
 	vmSer   map[*vm.VM]int
+	disk    map[string]string // program file -> content id last written there by the harness
+	vmCid   map[*vm.VM]string // content id of the file at the moment the VM was installed
 	nSwap   int
 	keepVMs []*vm.VM
 }
@@ -150,6 +150,9 @@ func (e *engine) sink(ev verifhook.Event) {
 		v := ev.Get("vm").(*vm.VM)
 		e.nSwap++
 		e.vmSer[v] = e.nSwap
+		if p, ok := ev.Get("prog").(string); ok {
+			e.vmCid[v] = e.disk[p]
+		}
 		e.keepVMs = append(e.keepVMs, v) // keep alive: addresses stay unique within the case
 		e.evs = append(e.evs, ev)
 	case "rt.load.unchanged", "rt.load.compile_error", "rt.load.add", "rt.load.registered", "rt.load.closed_old", "rt.unload", "vm.error":
@@ -406,7 +409,7 @@ func runCase(c *Case) map[string]interface{} {
 		vh.Fatal("mkdtemp: %v", err)
 	}
 	defer os.RemoveAll(dir)
-	e := &engine{recvN: map[string]int{}, sentN: map[string]int{}, endN: map[string]int{}, vmSer: map[*vm.VM]int{}}
+	e := &engine{recvN: map[string]int{}, sentN: map[string]int{}, endN: map[string]int{}, vmSer: map[*vm.VM]int{}, disk: map[string]string{}, vmCid: map[*vm.VM]string{}}
 	e.cond = sync.NewCond(&e.mu)
 	verifhook.SetSink(e.sink)
 	defer verifhook.SetSink(nil)
@@ -437,7 +440,6 @@ func runCase(c *Case) map[string]interface{} {
 	}()
 
 	base := readCtrs(c.Names)
-	cids := map[string]string{}
 	nline := 0
 	allGot := []Obs{}
 	okIdeal, okDev := true, true
@@ -451,8 +453,9 @@ func runCase(c *Case) map[string]interface{} {
 		for _, op := range st.Ops {
 			switch op.Op {
 			case "write":
-				sum := sha256.Sum256([]byte(op.Src))
-				cids[hex.EncodeToString(sum[:])] = op.Cid
+				e.mu.Lock()
+				e.disk[op.File] = op.Cid
+				e.mu.Unlock()
 				// write-then-rename so that a reader never sees a half-written file
 				tmp := filepath.Join(dir, ".tmp-write")
 				if err := os.WriteFile(tmp, []byte(op.Src), 0o600); err != nil {
@@ -462,10 +465,17 @@ func runCase(c *Case) map[string]interface{} {
 					vh.Fatal("rename: %v", err)
 				}
 			case "rm":
+				e.mu.Lock()
+				delete(e.disk, op.File)
+				e.mu.Unlock()
 				if err := os.RemoveAll(filepath.Join(dir, op.File)); err != nil {
 					vh.Fatal("rm: %v", err)
 				}
 			case "mv":
+				e.mu.Lock()
+				e.disk[op.To] = e.disk[op.File]
+				delete(e.disk, op.File)
+				e.mu.Unlock()
 				if err := os.Rename(filepath.Join(dir, op.File), filepath.Join(dir, op.To)); err != nil {
 					vh.Fatal("mv: %v", err)
 				}
@@ -544,9 +554,9 @@ func runCase(c *Case) map[string]interface{} {
 		got.Loads, got.Unloads, got.Lerr, got.Rterr = delta(ctrNames[0]), delta(ctrNames[1]), delta(ctrNames[2]), delta(ctrNames[3])
 		e.mu.Lock()
 		for _, h := range r.VerifC14Handles() {
-			cid, ok := cids[h.Hash]
-			if !ok {
-				cid = "?" + h.Hash[:8]
+			cid, ok := e.vmCid[h.VM]
+			if !ok || cid == "" {
+				cid = "?"
 			}
 			got.Run = append(got.Run, Run{P: h.Name, Cid: cid, VM: e.vmSer[h.VM]})
 		}
